@@ -87,7 +87,7 @@ GDestRet(p, c, w, ok) == (Wind => ok) /\ DestRet(c, w, ok) /\ Log(p, "DestRet", 
 GClose(p) ==
   /\ ~closedPts /\ wpc = "wait" /\ 2 * nctl >= GenLen
   /\ pwClosed' = TRUE /\ closedPts' = TRUE
-  /\ UNCHANGED <<meta, gen, changes, wpc, wch, rpc, queue, nextB, brp, subs, inc, cws, wr, seen, svcWritten, svcFail,
+  /\ UNCHANGED <<conf, meta, gen, changes, wpc, wch, rpc, queue, nextB, brp, subs, inc, cws, wr, seen, svcWritten, svcFail,
                  createFail, closeRet, panicked>>
   /\ Log(p, "Close", NoKey, 0, 0, TRUE)
 
@@ -108,7 +108,7 @@ GSpec == GInit /\ [][GNext]_gvars
 
 GenNoRace == ~(wpc = "send" /\ queue # <<>>) /\ Len(queue) <= 1
 
-Out == [w |-> W, buf |-> BufSize, dev |-> Dev,
+Out == [w |-> wact, buf |-> bsz, dev |-> Dev,
         steps |-> hist, final |-> Proj]
 Emit == /\ Assert(GenNoRace, "generator reached a state with a select race")
         /\ (closeRet => PrintT(<<"BEHAVIOUR", ToJson(Out)>>))
